@@ -83,11 +83,13 @@ func directiveKey(k string, r *rng.R) string {
 
 // rawQueryEnc renders the decoded query as a raw query. enc selects, deterministically, one of
 // the equivalent spellings (the decoded query, which is what the model is given, is the same):
-//   0            plain (url.QueryEscape)
-//   mode 1       every directive key has percent-encoded characters in its _HLS_ prefix
-//   mode 2       a mix of plain and encoded directive keys
-//   mode 3       encoded characters in the other keys and in values, directive keys plain
-//   mode 4       everything: encoded directive keys, other keys, values, %20 for a space
+//
+//	0            plain (url.QueryEscape)
+//	mode 1       every directive key has percent-encoded characters in its _HLS_ prefix
+//	mode 2       a mix of plain and encoded directive keys
+//	mode 3       encoded characters in the other keys and in values, directive keys plain
+//	mode 4       everything: encoded directive keys, other keys, values, %20 for a space
+//
 // with mode = enc % 8 (5..7 as 1) and the rest of enc as the seed of the random choices.
 func rawQueryEnc(q []qitem, enc uint64) string {
 	mode := int(enc % 8)
